@@ -18,12 +18,14 @@ package value
     trusted
     modifies nothing
     requires other != nil && other.Kind() == self.Kind()
+    ensures ret1 != nil ==> *ret1 != nil
 @*/
 
 /*@ template for (self Value*) Display
     serves C13
     trusted
     modifies nothing
+    ensures ret1 != nil ==> *ret1 != nil
 @*/
 
 /*@ template for (self Value*) Fields
@@ -31,10 +33,4 @@ package value
     trusted
     modifies nothing
     ensures ret1 == nil ==> ret0 != nil
-@*/
-
-/*@ template for (self Value*) IntoIter
-    serves C18
-    trusted
-    modifies nothing
 @*/
